@@ -320,13 +320,18 @@ func runC20(t *zsim.Tape, cfg *hlib.Config) *hlib.Outcome {
 		states[fmt.Sprintf("%d/%d/%d", len(live), busy, bl)] = true
 		return nil
 	}
+	quietLen := time.Duration(0)
 	res := w.Run(activeEnd, 60000, inv)
 	if res.Reason != "invariant" {
 		// quiet phase: no new requests or faults, fair scheduling
 		quiet = true
 		w.SetFair(true)
-		res = w.Run(activeEnd+timeout+60*time.Second, 200000, inv)
+		// long enough for every request to be served one after another by workers that each
+		// run into the timeout, plus a minute: the liveness bounds are loose on purpose
+		quietLen = timeout*time.Duration(len(reqs)+1) + 60*time.Second
+		res = w.Run(activeEnd+quietLen, 400000, inv)
 	}
+	quietComplete := res.Reason == "deadline" || res.Reason == "quiescent"
 	out.SimTime = w.Now()
 	out.Faults = w.Faults
 	out.Probes = w.Probes
@@ -417,8 +422,8 @@ func runC20(t *zsim.Tape, cfg *hlib.Config) *hlib.Outcome {
 		}
 		if !r.Done {
 			// still waiting at the end of the quiet phase
-			if v == nil {
-				return fail("I3:request-never-served", fmt.Sprintf("request %s (sent at %s, conn %d) was never handled although the system was quiet for %s", r.Token, r.SentAt, r.ConnID, timeout+60*time.Second))
+			if v == nil && quietComplete {
+				return fail("I3:request-never-served", fmt.Sprintf("request %s (sent at %s, conn %d) was never handled although the system was quiet for %s", r.Token, r.SentAt, r.ConnID, quietLen))
 			}
 			continue
 		}
@@ -447,16 +452,19 @@ func runC20(t *zsim.Tape, cfg *hlib.Config) *hlib.Outcome {
 		if wp == nil {
 			continue
 		}
-		if !wp.Exited && w.Now() > v.Start+timeout+time.Second {
+		if !wp.Exited && w.Now() > v.Start+timeout+5*time.Second {
 			return fail("I4:hung-worker-not-terminated", fmt.Sprintf("pid %d has been serving %s since %s (timeout %s) and is still alive at %s", v.Pid, v.Token, v.Start, timeout, w.Now()))
 		}
-		if wp.Exited && !wp.Killed && wp.ExitAt > v.Start+timeout+time.Second {
+		if wp.Exited && !wp.Killed && wp.ExitAt > v.Start+timeout+5*time.Second {
 			return fail("I4:hung-worker-terminated-late", fmt.Sprintf("pid %d exceeded the timeout at %s but exited only at %s", v.Pid, v.Start+timeout, wp.ExitAt))
 		}
 	}
 	// I2: back to at least init-procs once quiet
-	if len(liveEnd) < sc.InitProcs {
-		return fail("I2:pool-below-init-procs-when-quiet", fmt.Sprintf("%d live workers %s after the last fault/request, --init-procs=%d", len(liveEnd), timeout+60*time.Second, sc.InitProcs))
+	if len(liveEnd) < sc.InitProcs && quietComplete {
+		return fail("I2:pool-below-init-procs-when-quiet", fmt.Sprintf("%d live workers %s after the last fault/request, --init-procs=%d", len(liveEnd), quietLen, sc.InitProcs))
+	}
+	if !quietComplete {
+		out.Note["quiet-phase-cut-by-step-cap(liveness unchecked)"]++
 	}
 	if len(liveEnd) > sc.MaxProcs {
 		return fail("I1:live-workers-exceed-max-procs", fmt.Sprintf("%d live workers when quiet, --max-procs=%d", len(liveEnd), sc.MaxProcs))
